@@ -21,7 +21,9 @@ Clause map of the property statement:
 * every group sees the node's state — `groups_see_state`;
 * kernel bit — `kernel_bit`, `group_callbacks_are_edges`, `random_policy_never_writes`, `kernel_key_injective`
   (the code as of fix addc261: the `time.Hour` start value no longer bounds selectable latencies);
-* reload — `reload_hands_over_state`, `reload_snapshot_drops_counters`, `reload_floor_leaves_selectable`.
+* reload — `reload_hands_over_state`, `reload_snapshot_drops_counters`, `reload_leaves_every_group_selectable`
+  (whole `InheritDialerHealthFrom`, all groups, shared nodes; `reload_old_order_leaves_group_empty` shows the
+  pre-fix order violates it), `reload_floor_leaves_selectable` (one floor step).
 -/
 namespace DaeVerif.C16.Props
 open DaeVerif.C16
@@ -297,6 +299,19 @@ theorem kernel_key_slots (ob i : Nat) (hi : 2 ≤ i ∧ i ≤ 7) : ob * 6 ≤ ke
 
 example : (standardTyps.map fun t => kernelKey 2 t.idx) = [14, 15, 12, 13, 16, 17] := by decide
 
+/-- The closure built by `outboundAliveChangeCallback` writes nothing once its core is closed or retired
+(a drained generation cannot clobber its successor's bits), and in dry-run mode (`dial_mode` other than
+`ip`) only the init callbacks write; otherwise it writes `kernelWrite`. -/
+theorem kernel_callback_guards (closed retired dryrun : Bool) (ob i : Nat) (alive isInit : Bool) :
+    kernelCallback closed retired dryrun ob i alive isInit =
+      if closed = true ∨ retired = true ∨ (isInit = false ∧ dryrun = true) then none
+      else some (kernelWrite ob i alive) := by
+  cases closed <;> cases retired <;> cases dryrun <;> cases isInit <;> simp [kernelCallback, kernelWrite]
+
+example : kernelCallback false false true 2 4 false true = some (12, 0) ∧
+    kernelCallback false false true 2 4 false false = none ∧ kernelCallback false true false 2 4 true true = none := by
+  decide
+
 /-! ## reload -/
 
 /-- `ReloadHealthSnapshot` keeps availability and drops both counters. -/
@@ -330,6 +345,51 @@ theorem reload_floor_leaves_selectable (w : World) (g : Nat) (fb : Nat → Optio
   cases hm : s.minD with
   | some _ => rfl
   | none => exact absurd (this.mp hm) h1
+
+/-- **Whole hand-over.** After any history, `ControlPlane.InheritDialerHealthFrom` (all fallbacks
+captured, every matched dialer of every group restored, then every group floored — nodes may be shared
+by any number of groups) leaves every group of the new generation whose sets are registered, have
+members and whose fallback candidates are members with all six sets non-empty and, for a latency
+policy, a selected best node: every non-empty group keeps at least one selectable node per type. -/
+theorem reload_leaves_every_group_selectable (h : List Event) (gs : List ReloadGroup) (o : Oracle) :
+    ∀ G ∈ gs,
+      (∀ t ∈ standardTyps, ∀ s, findSet (run World.init h).1.sets G.g t.idx = some s →
+        s.active = true ∧ s.members ≠ [] ∧ ∀ c, G.fb t.idx = some c → c ∈ s.members) →
+      ∀ t ∈ standardTyps, ∀ s, findSet (step (run World.init h).1 (.reload gs o)).1.sets G.g t.idx = some s →
+        s.entries ≠ [] ∧ (s.minPolicy = true → s.minD.isSome = true) := by
+  intro G hG hr t ht s hs
+  have hgood := run_good h World.init (by intro s hs; simp [World.init] at hs)
+  have hnd : SetsAll NodupSet (run World.init h).1 := fun s hs => (hgood s hs).nodup
+  have h1 := reload_all_done (run World.init h).1 gs o hnd G hG hr t ht s hs
+  have h2 := reload_pres GoodSet o (goodSet_stable o) (run World.init h).1 gs hgood s (findSet_mem _ _ _ _ hs).1
+  refine ⟨h1, fun hmp => ?_⟩
+  cases hm : s.minD with
+  | some _ => rfl
+  | none => exact absurd ((h2.sel hmp).mp hm) h1
+
+set_option maxRecDepth 8000 in
+/-- old generation: nodes 0 (D), 1 (F) dead on TCP4, node 2 (E) alive; new generation 3 (D), 4 (F), 5 (E),
+groups g0 = [D, F] and g1 = [E, D, F] sharing D and F.  The hand-over keeps g0 selectable … -/
+example :
+    let h : List Event := [.node 0 0, .node 1 0, .node 2 0, .forced 0 .t4 [], .forced 1 .t4 [],
+      .node 3 0, .node 4 0, .node 5 0,
+      .group 0 2 .minLast 0 [(3, 0), (4, 0)] [], .group 1 3 .minLast 0 [(5, 0), (3, 0), (4, 0)] []]
+    let gs : List ReloadGroup := [⟨0, fun _ => none, [(3, 0), (4, 1)]⟩, ⟨1, fun _ => none, [(5, 2), (3, 0), (4, 1)]⟩]
+    ((findSet (step (run World.init h).1 (.reload gs [])).1.sets 0 4).map fun s => (s.active, keys s.entries, s.kbit)) =
+      some (true, [3], true) := by decide
+
+set_option maxRecDepth 8000 in
+/-- … whereas the order used before the fix (restore and floor group by group) does not: g1's restore
+re-applies D's dead snapshot after g0's floor had revived D, and g1 (E alive) needs no floor itself. -/
+theorem reload_old_order_leaves_group_empty :
+    ∃ (h : List Event) (gs : List ReloadGroup) (s : ASet),
+      findSet (reloadOld gs (run World.init h).1 []).1.sets 0 4 = some s ∧
+      s.active = true ∧ s.members ≠ [] ∧ s.entries = [] ∧ s.kbit = false :=
+  ⟨[.node 0 0, .node 1 0, .node 2 0, .forced 0 .t4 [], .forced 1 .t4 [],
+      .node 3 0, .node 4 0, .node 5 0,
+      .group 0 2 .minLast 0 [(3, 0), (4, 0)] [], .group 1 3 .minLast 0 [(5, 0), (3, 0), (4, 0)] []],
+    [⟨0, fun _ => none, [(3, 0), (4, 1)]⟩, ⟨1, fun _ => none, [(5, 2), (3, 0), (4, 1)]⟩],
+    _, rfl, by decide, by decide, by decide, by decide⟩
 
 /-- a new generation inherits an all-dead TCP4 state; the floor revives the first member -/
 example :
